@@ -315,7 +315,20 @@ class World:
             else:
                 out += ' args=[' + ','.join(show(a) for a in e.args) + ']'
         ctx = self.rel(e.__context__)
-        return out + f' cause={self.rel(e.__cause__)} ctx={"-" if ctx == "o" else ctx}'
+        out += f' cause={self.rel(e.__cause__)} ctx={"-" if ctx == "o" else ctx}'
+        if getattr(self, 'probes', False):
+            import pickle
+            try:
+                t = str(e); ok = isinstance(t, str)
+                out += ' str=' + ('ok' if ok else 'err')
+            except BaseException as x:
+                out += ' str=err:' + type(x).__name__
+            try:
+                e2 = pickle.loads(pickle.dumps(e))
+                out += ' pickle=' + ('ok' if type(e2) is type(e) and e2.args == e.args else 'changed')
+            except BaseException as x:
+                out += ' pickle=err:' + type(x).__name__
+        return out
 
     def snapshot(self):
         st = _state.state
@@ -327,6 +340,7 @@ class World:
             except StopIteration as st: return st.value
 
     def drive(self, sc):
+        self.probes = bool(sc.get('probes'))
         out, vars = [], {}
         for a in sc['driver']:
             k = a[0]
